@@ -134,6 +134,7 @@ fn sweep(run: &Run, n: usize, max_edges: Option<u32>) {
             return;
         }
         run.eval(1);
+        run.watch_num("digraph", n as u64, code);
         let case = json!({"kind": "digraph", "n": n, "code": code});
         // Non-trivial: the graph has a join (a node with two predecessors), so frontiers and
         // immediate dominators are not forced by a tree shape.
